@@ -119,6 +119,40 @@ def _cb_leaves(tree):
     return kit.leaves(tree)
 
 
+def native_observer_replay(algo_name):
+    """R1: real learn() on a real environment with callback=None vs an attached (effect-free) observer and vs an observer list, same key; compared under both settings of
+    jax_threefry_partitionable (the property must not hinge on prefix-stability of jax.random.split, which JAX does not promise)."""
+    def replay(model):
+        from lerax.env.classic_control import CartPole
+        from lerax.policy import MLPActorCriticPolicy, MLPQPolicy
+        env = CartPole()
+        old = jax.config.jax_threefry_partitionable
+        try:
+            for flag in (old, not old):
+                jax.config.update("jax_threefry_partitionable", flag)
+                if algo_name == "DQN":
+                    algo = DQN(num_envs=1, buffer_size=32, learning_starts=4, num_steps=2, batch_size=4)
+                    pol = MLPQPolicy(env, width_size=4, depth=1, key=jax.random.key(0))
+                else:
+                    algo = {"PPO": lambda: PPO(num_envs=1, num_steps=8, num_batches=2, num_epochs=1), "A2C": lambda: A2C(num_envs=1, num_steps=8)}[algo_name]()
+                    pol = MLPActorCriticPolicy(env, feature_size=4, feature_width=4, feature_depth=1, value_width=4, value_depth=1, action_width=4, action_depth=1, key=jax.random.key(0))
+                key = jax.random.key(3)
+                outs = {}
+                for nm, cb in (("none", None), ("observer", SimpleCallback("cb")), ("list", [SimpleCallback("cb1"), SimpleCallback("cb2")])):
+                    outs[nm] = algo.learn(env, pol, 24, key=key, callback=cb)
+                ref = jax.tree.leaves(eqx.filter(outs["none"], eqx.is_inexact_array))
+                for nm in ("observer", "list"):
+                    pairs = [(np.asarray(a, np.float64), np.asarray(b, np.float64)) for a, b in zip(ref, jax.tree.leaves(eqx.filter(outs[nm], eqx.is_inexact_array)))]
+                    d = max([float(np.nanmax(np.abs(a - b))) if a.size and not np.all(np.isnan(a - b)) else 0.0 for a, b in pairs] + [0.0])
+                    if d > 0 or any(not np.array_equal(np.isnan(a), np.isnan(b)) for a, b in pairs):
+                        return dict(reproduced=True, route=f"R1 (real {algo_name}.learn on CartPole, 24 timesteps, same key, callback=None vs attached observer)",
+                                    inputs=dict(jax_threefry_partitionable=flag, observer=nm, key=3), observed=dict(max_abs_parameter_difference=d))
+        finally:
+            jax.config.update("jax_threefry_partitionable", old)
+        return dict(reproduced=False, note="trained parameters identical with and without observers under both PRNG split implementations")
+    return replay
+
+
 def unit_observers_on_policy(S):
     """PPO.iteration with real collection (num_steps = 2, unrolled), generic env / policy, training abstracted (TRAIN# sees the whole rollout):
     nothing a callback returns reaches the new policy, optimiser state, env/policy state or the rollout."""
@@ -165,6 +199,30 @@ def unit_observers_on_policy(S):
         effs = [e for e in ctx.effects]
         S.fact(f"{tag}/no-host-effects-with-pure-callbacks", not effs, function=fn, what="with effect-free callbacks the iteration has no host effects at all (no io_callback, no debug callback)", detail=[e[0] for e in effs])
 
+    # relational: the SAME run with no observer (the empty CallbackList that learn(callback=None) builds), with one observer and with an observer list: every protected output is the same term
+    for algo_name, mk in (("PPO", lambda: PPO(num_envs=1, num_steps=2, num_batches=1)), ("A2C", lambda: A2C(num_envs=1, num_steps=2))):
+        ctx = Ctx()
+        algo = mk()
+        env0 = GenericEnv(Discrete(3), observation_space=OBS)
+        pol0 = GenericActorCriticPolicy(env0.action_space, OBS)
+        k, kc = kit.key_input("key")
+        k2, kc2 = kit.key_input("key2")
+        env, pol = sym(ctx, "env", env0), sym(ctx, "pi", pol0)
+
+        def train_stub(self, policy_, opt_state, buffer, *, key):
+            th, o = ocall("TRAIN#", (sd((2,), f32), sd((3,), f32)), policy_.theta, opt_state, key, jax.tree.leaves(buffer))
+            return eqx.tree_at(lambda p: p.theta, policy_, th), o, {"loss": jnp.sum(th)}
+        runs = {}
+        with extract.patched((type(algo), "train", train_stub)):
+            for nm, cb in (("none", algo.consolidate_callbacks(None)), ("observer", SimpleCallback("cb")), ("list", algo.consolidate_callbacks([SimpleCallback("cb1"), SimpleCallback("cb2")]))):
+                s0 = run(ctx, lambda a, e, p, kk, cb=cb: a.reset(e, p, key=kk, callback=cb), algo, env, pol, k)
+                runs[nm] = run(ctx, lambda a, s, kk, cb=cb: a.iteration(s, key=kk, callback=cb), algo, s0, k2)
+        prot = lambda s: (s.policy, s.opt_state, s.step_state.env_state, s.step_state.policy_state, s.iteration_count)
+        for nm in ("observer", "list"):
+            S.prove(f"{algo_name}/with-{nm}-equals-without-observer", ctx, kit.tree_eq(prot(runs[nm]), prot(runs["none"])), function=fn, replay=native_observer_replay(algo_name),
+                    what="reset + iteration with an attached observer yields the same policy, optimiser state, environment / policy state and counter as the run without observers "
+                         "(same keys; jax.random.split(k, n)[i] modelled as an uninterpreted function of (k, n, i): no reliance on prefix stability)")
+
 
 def unit_observers_off_policy(S):
     fn = "lerax.algorithm.off_policy:AbstractOffPolicyAlgorithm.iteration"
@@ -197,6 +255,28 @@ def unit_observers_off_policy(S):
                what="new policy, target network, optimiser state, environment / policy state and the replay buffer do not depend on anything a callback returned", detail=leaked)
         S.fact(f"{tag}/callback-state-threads-callback-results", any(n.startswith("cb") for n in uf_names_of(kit.leaves(st1.step_state.callback_state) + kit.leaves(st1.callback_state), ctx)), function=fn,
                what="non-vacuity: callback results do flow into the callback state")
+
+    # relational: no observer vs observer vs observer list (same keys)
+    ctx = Ctx()
+    algo = DQN(num_envs=1, buffer_size=3, learning_starts=1, num_steps=2, batch_size=1)
+    env0 = GenericEnv(Discrete(3), observation_space=OBS)
+    pol0 = GenericQPolicy(env0.action_space, OBS, epsilon=0.0)
+    k, kc = kit.key_input("key")
+    k2, kc2 = kit.key_input("key2")
+    env, pol = sym(ctx, "env", env0), sym(ctx, "q", pol0)
+
+    def train_stub2(self, policy_, opt_state, buffer, target_policy, *, key):
+        th, o = ocall("TRAIN#", (sd((2,), f32), sd((3,), f32)), policy_.theta, opt_state, key, [l for l in jax.tree.leaves(buffer) if hasattr(l, "shape")])
+        return eqx.tree_at(lambda p: p.theta, policy_, th), o, {"loss": jnp.sum(th)}
+    runs = {}
+    with extract.patched((DQN, "dqn_train", train_stub2), *_dx_patch()):
+        for nm, cb in (("none", algo.consolidate_callbacks(None)), ("observer", SimpleCallback("cb")), ("list", algo.consolidate_callbacks([SimpleCallback("cb1"), SimpleCallback("cb2")]))):
+            s0 = run(ctx, lambda a, e, p, kk, cb=cb: a.reset(e, p, key=kk, callback=cb), algo, env, pol, k)
+            runs[nm] = run(ctx, lambda a, s, kk, cb=cb: a.iteration(s, key=kk, callback=cb), algo, s0, k2)
+    prot = lambda s: (s.policy, s.target_policy, s.opt_state, s.step_state.env_state, s.step_state.policy_state, s.step_state.buffer, s.iteration_count)
+    for nm in ("observer", "list"):
+        S.prove(f"DQN/with-{nm}-equals-without-observer", ctx, kit.tree_eq(prot(runs[nm]), prot(runs["none"])), function=fn, replay=native_observer_replay("DQN"),
+                what="reset (incl. warm-up) + iteration with an attached observer yields the same policy, target network, optimiser state, environment / policy state, replay buffer and counter as the run without observers")
 
 
 def _dx_patch():
